@@ -174,6 +174,88 @@ theorem remove_unstable_exact (f : TransFns Rat) (e : Env Rat) (u : PP Rat) :
   intro ht c1 c2 c3 c4
   simp [removeDelta, resetApply, equalTol, absv, NumOps.lit, NumOps.ofRat, c1, c2, c3, c4, ht]
 
+/-! ## 2b. the rows `ineq()` hands to `cl1` carry the restrictions -/
+
+/-- **ineq_rows_keep_restrictions** — the inequality rows and the sign restriction that `ineq()` writes for a pure phase:
+ANY vector `x` that satisfies them (and is 0 on a column that `ineq()` zeroed, i.e. a variable that occurs in no row)
+gives a new amount `moles − x_i` that is not negative and, for dissolve_only, not above the initial amount.  With an exact
+LP solver the scaling in `reset()` therefore never acts; `reset()` is the safety net for the inexact one. -/
+theorem ineq_rows_keep_restrictions (f : TransFns Rat) (e : IEnv Rat) (i : Nat) (u : IUnk Rat) (z : List Bool) (x : List Rat) :
+    letI := ratOps f
+    u.type = 18 → z.getD i false = zeroCol e i u →
+    0 ≤ u.moles → (u.dissolveOnly = true → u.moles ≤ u.initial) →
+    (∀ r ∈ ppIneqRows i u, r.lhs z x ≤ r.rhs) → (ppSign u < 0 → getL x i ≤ 0) → (zeroCol e i u = true → getL x i = 0) →
+      0 ≤ u.moles - getL x i ∧ (u.dissolveOnly = true → u.moles - getL x i ≤ u.initial) := by
+  letI := ratOps f
+  intro ht hz hm hd hrows hsign hzero
+  by_cases hzc : zeroCol e i u = true
+  · have := hzero hzc
+    rw [this]
+    exact ⟨by linarith, fun h => by have := hd h; linarith⟩
+  · have hzf : zeroCol e i u = false := by simpa using hzc
+    have hparts : u.phaseIn = true ∧ ppIdle u = false ∧ ppBlocked u = false := by
+      simp only [zeroCol, ht, Bool.or_eq_false_iff, Bool.not_eq_false'] at hzf
+      exact ⟨hzf.1.2, hzf.1.1, hzf.2⟩
+    obtain ⟨hin, hidle, hblk⟩ := hparts
+    rw [hzf] at hz
+    by_cases hpos : u.moles ≤ 0
+    · -- absent: sign restriction
+      have hs : ppSign u < 0 := by
+        simp (config := { zetaDelta := true }) [ppSign, ht, hin, hidle, NumOps.lit, NumOps.ofRat, hpos]
+      have hx := hsign hs
+      refine ⟨by linarith, fun hdis => ?_⟩
+      have hr := hrows (IRow.unit i i (-(lit 1)) (u.initial - u.moles)) (by
+        simp (config := { zetaDelta := true }) [ppIneqRows, hin, hidle, hdis, hpos, NumOps.lit, NumOps.ofRat])
+      simp (config := { zetaDelta := true }) only [IRow.lhs, IRow.rhs, hz, NumOps.lit, NumOps.ofRat, id_eq, Bool.false_eq_true, if_false] at hr
+      linarith
+    · have hr1 := hrows (IRow.unit i i (lit 1) u.moles) (by
+        simp (config := { zetaDelta := true }) [ppIneqRows, hin, hidle, hblk, hpos, NumOps.lit, NumOps.ofRat])
+      simp (config := { zetaDelta := true }) only [IRow.lhs, IRow.rhs, hz, NumOps.lit, NumOps.ofRat, id_eq, Bool.false_eq_true, if_false] at hr1
+      refine ⟨by linarith, fun hdis => ?_⟩
+      have hr := hrows (IRow.unit i i (-(lit 1)) (u.initial - u.moles)) (by
+        simp (config := { zetaDelta := true }) [ppIneqRows, hin, hidle, hblk, hdis, hpos, NumOps.lit, NumOps.ofRat])
+      simp (config := { zetaDelta := true }) only [IRow.lhs, IRow.rhs, hz, NumOps.lit, NumOps.ofRat, id_eq, Bool.false_eq_true, if_false] at hr
+      linarith
+
+/-- the pure-phase inequality rows are rows of the system handed to `cl1` -/
+theorem ppIneqRows_mem (f : TransFns Rat) (e : IEnv Rat) (us : List (IUnk Rat)) (jac : List (List Rat)) :
+    letI := ratOps f
+    ∀ p ∈ enum 0 (us.zip jac), p.2.1.type = 18 → ∀ r ∈ ppIneqRows p.1 p.2.1, r ∈ ineqRows e us jac := by
+  letI := ratOps f
+  intro p hp ht r hr
+  simp only [ineqRows, List.mem_append, List.mem_flatMap]
+  left; right
+  exact ⟨p, hp, by simp [ht, hr]⟩
+
+/-- a delta that respects the rows is left alone by the scan of `reset()`: no clamp, no scaling (`factor` unchanged) -/
+theorem feasible_no_scaling (f : TransFns Rat) (u : PP Rat) (d factor : Rat) :
+    letI := ratOps f
+    0 ≤ u.moles → -100000000 ≤ d → d ≤ 100000000 → (0 < u.moles → d ≤ u.moles) → (u.moles ≤ 0 → d ≤ 0) →
+    (u.dissolveOnly = true → -d ≤ u.initial - u.moles) →
+      resetScan u d factor = (d, factor) := by
+  intro hm h1 h2 h3 h4 h5
+  simp only [resetScan, clampDelta, scanDissolve, scanRemove, NumOps.lit, NumOps.ofRat, id_eq]
+  have c1 : ¬ d < -100000000 := by linarith
+  have c2 : ¬ (100000000 : Rat) < d := by linarith
+  simp only [c1, c2, if_false]
+  by_cases hdis : u.dissolveOnly = true
+  · have c3 : ¬ (u.initial - u.moles < -d) := by have := h5 hdis; linarith
+    by_cases hp : 0 < u.moles
+    · have c4 : ¬ u.moles < d := by have := h3 hp; linarith
+      have c5 : ¬ u.moles ≤ 0 := by linarith
+      simp [hdis, c3, hp, c4, c5]
+    · have c6 : u.moles ≤ 0 := by linarith
+      have c7 : ¬ 0 < d := by have := h4 c6; linarith
+      simp [hdis, c3, hp, c6, c7]
+  · simp only [Bool.not_eq_true] at hdis
+    by_cases hp : 0 < u.moles
+    · have c4 : ¬ u.moles < d := by have := h3 hp; linarith
+      have c5 : ¬ u.moles ≤ 0 := by linarith
+      simp [hdis, hp, c4, c5]
+    · have c6 : u.moles ≤ 0 := by linarith
+      have c7 : ¬ 0 < d := by have := h4 c6; linarith
+      simp [hdis, hp, c6, c7]
+
 /-! ## 3. solid solutions -/
 
 /-- **ssIdeal_simplex** — `calc_ss_fractions` / `ss_ideal`: for component amounts that are all positive (the code keeps
@@ -447,5 +529,32 @@ example : letI := ratOps toyFns;
     ((ssBinary 3 0 true (1 / 10) (8 / 10) (1 / 2) (1 / 2) 1).xb, (ssBinary 3 0 true (1 / 10) (8 / 10) (19 / 20) (1 / 20) 1).xb) = ((1 / 10 : Rat), (1 / 20 : Rat)) := by
   decide +kernel
 example : letI := ratOps toyFns; guggParams 7 (5 : Rat) 1 (5 / 2) = some (2, 2 / 5) := by decide +kernel
+
+-- ineq(): Calcite present (2 mmol, slightly undersaturated), Gypsum absent and undersaturated (idle: no row, column zeroed),
+-- Dolomite dissolve_only 1 mmol below its 5 mmol, an absent supersaturated phase (sign restriction), one mass balance:
+-- rows in the order optimise / equality / inequality, `back_eq` = sources
+def toyIneqEnv : IEnv Rat :=
+  { iterations := 3, aqueousOnly := 0, equiDelay := 0, ppScale := 1, inKode := 1, minRel := 1 / 100000000000000000000000,
+    minTotalSS := 1 / 1000000000000000000000000000, massWaterSwitch := false, oxygenIdx := 99, hydrogenIdx := 99, exchRelated := false }
+def toyIneqUs : List (IUnk Rat) :=
+  [{ type := 10, moles := 1 / 100, f := 1 / 100, initial := 0, grams := 0, iteration := 3 },
+   { type := 18, moles := 2 / 1000, f := 1 / 1000, initial := 2 / 1000, grams := 0, iteration := 3 },
+   { type := 18, moles := 0, f := 1, initial := 0, grams := 0, iteration := 3 },
+   { type := 18, moles := 4 / 1000, f := 1 / 100, initial := 5 / 1000, grams := 0, iteration := 3, dissolveOnly := true },
+   { type := 18, moles := 0, f := -1 / 2, initial := 0, grams := 0, iteration := 3 }]
+def toyJac : List (List Rat) :=
+  [[1, -1, 0, -1, -1, 0], [2, 0, 0, 0, 0, 1 / 1000], [1, 0, 0, 0, 0, 1], [3, 0, 0, 0, 0, 1 / 100], [1, 0, 0, 0, 0, -1 / 2]]
+example : letI := ratOps toyFns; (ineqRows toyIneqEnv toyIneqUs toyJac).map (fun r => (r.kind, r.src)) =
+    [(0, 1), (0, 3), (0, 4), (1, 0), (2, 1), (2, 3), (2, 3)] := by decide +kernel
+example : letI := ratOps toyFns; ineqZero toyIneqEnv toyIneqUs = [false, false, true, false, false] := by decide +kernel
+example : letI := ratOps toyFns; ineqSigns toyIneqUs = [0, 0, 0, 0, -1] := by decide +kernel
+-- a vector that dissolves 1 mmol of Calcite, precipitates 1 mmol of Dolomite back and 3 mmol of the absent phase is
+-- feasible; one that dissolves 3 mmol of Calcite or precipitates 2 mmol of Dolomite is not
+example : letI := ratOps toyFns;
+    ((ineqRows toyIneqEnv toyIneqUs toyJac).filter (fun r => r.kind == 2)).all
+      (fun r => decide (r.lhs (ineqZero toyIneqEnv toyIneqUs) [0, 1 / 1000, 0, -1 / 1000, -3 / 1000] ≤ r.rhs)) = true := by decide +kernel
+example : letI := ratOps toyFns;
+    ((ineqRows toyIneqEnv toyIneqUs toyJac).filter (fun r => r.kind == 2)).map
+      (fun r => decide (r.lhs (ineqZero toyIneqEnv toyIneqUs) [0, 3 / 1000, 0, -2 / 1000, 0] ≤ r.rhs)) = [false, true, false] := by decide +kernel
 
 end PhreeqcVerif.Assemblage
